@@ -599,3 +599,94 @@ DETAIL = 'detector.{attr_name} = <{cls} holding ' + repr(getattr(other.{attr_nam
 """, "expect": "Detector bucket setter keeps the representation invariant"}
                     u.oblige(p, f"detector.setters[{attr_name}:{pre},{src_pre},{p.kind}]", zb(rep(p, p.ex.self_ref, allowed, photon=cls == "Photon")),
                              w, rp, info={"small": [ROWS, COLS, z3.Int("rows_b"), z3.Int("cols_b"), z3.Int("src_s0"), z3.Int("src_s1")]})
+
+
+# ---- Photon equality (its own __eq__: 2-D arrays and multi-wavelength cubes) -------------------------------------------------------
+@unit("C13", "Photon.__eq__")
+def photon_eq_unit(u: Unit):
+    """Photon.__eq__ against the statement: equal exactly when same kind AND same (detector) shape AND both empty or both holding equal
+    content; never raises. Pre-states: empty / 2-D array / 3-D cube on both sides, same or different detector shape."""
+    fi = u.fn(PH + "::Photon.__eq__")
+    cfg = mk_cfg()
+    cfg.lib_overrides[("isinstance", "DataArray")] = lambda ex, v, libs, clss: VBool("xarray.DataArray" in libs)
+    base_attr = cfg.lib_overrides[("opaque_attr", "DataArray")]
+    cfg.lib_overrides[("opaque_attr", "DataArray")] = lambda ex, obj, name, fr: VLib("xr.DataArray.equals", obj) if name == "equals" else base_attr(ex, obj, name, fr)
+    def equals(ex, f, args, kwargs, fr):      # xarray: equal values, dimensions and coordinates — in particular equal sizes
+        o, me = args[0], f.self_val
+        if not (isinstance(o, VOpaque) and o.kind == "DataArray"):
+            return VBool(False)
+        return VBool(z3.And(z3.Bool("cubes_equal"), me.info["size_y"] == o.info["size_y"], me.info["size_x"] == o.info["size_x"], me.info["ndim"] == o.info["ndim"]))
+    cfg.lib_overrides["xr.DataArray.equals"] = equals
+    base_ae = arrays.NP["numpy.array_equal"]
+
+    def array_equal(ex, f, args, kwargs, fr):     # a 2-D array against a 3-D cube: shapes differ
+        a, b = args[0], args[1]
+        for x, y in ((a, b), (b, a)):
+            if isinstance(x, VOpaque) and x.kind == "DataArray" and ex.is_arr(y) and len(ex.st.cell(y).shape) == 2:
+                if ex.st.branch(x.info["ndim"] == 3):
+                    return VBool(False)
+                raise Unsupported("array_equal of a 2-D array and a DataArray that is not 3-D")
+        return base_ae(ex, args, kwargs, fr)
+    cfg.lib_overrides["numpy.array_equal"] = array_equal
+    ci = u.cls(PH + "::Photon")
+
+    def replay(pre_a, pre_b, same_shape):
+        def mk(w):
+            rb = "2, 2" if same_shape else "3, 2"
+            val = {"empty": "None", "full": "np.ones(({s}))", "3d": "N.make_value('xr', rows={r}, cols={c})"}
+            va = val[pre_a].format(s="2, 2", r=2, c=2)
+            vb = val[pre_b].format(s=rb, r=rb.split(",")[0], c=2)
+            return {"code": f"""
+import numpy as np, c13_native as N
+a = N.detector(2, 2).photon
+b = N.detector({rb}).photon
+a._array = {va}
+b._array = {vb}
+expected = {same_shape and pre_a == pre_b}
+try:
+    got = (a == b)
+    VIOLATED = bool(got) != expected
+    DETAIL = 'photon a({pre_a}, detector 2x2) == photon b({pre_b}, detector {rb}) returned ' + repr(got) + ', expected ' + repr(expected)
+except Exception as e:
+    VIOLATED, DETAIL = True, 'a({pre_a}) == b({pre_b}) raised ' + repr(e)
+""", "expect": "photon containers are equal exactly when same shape and both empty or equal content"}
+        return mk
+    for pre_a in ("empty", "full", "3d"):
+        for pre_b in ("empty", "full", "3d"):
+            for same_shape in (True, False):
+                def setup(ex, pre_a=pre_a, pre_b=pre_b, same_shape=same_shape):
+                    a = mk_container(ex, u, DS + "photon.py", "Photon", FLOATS, pre_a, photon=True)
+                    r2, c2 = (ROWS, COLS) if same_shape else (z3.Int("rows_b"), z3.Int("cols_b"))
+                    if not same_shape:
+                        ex.st.assume(z3.And(r2 > 0, c2 > 0, z3.Or(r2 != ROWS, c2 != COLS)))
+                    geo_b = ex.st.alloc(HObj(u.cls(GEO), {"_row": VInt(r2), "_col": VInt(c2)}))
+                    b = ex.instantiate(ci, [geo_b], {}, Frame(None, ci.module))
+                    fb = z3.Function("b_elem", z3.IntSort(), z3.IntSort(), z3.RealSort())
+                    if pre_b == "empty":
+                        ex.st.cell(b).fields["_array"] = NONE
+                    elif pre_b == "full":
+                        ex.st.cell(b).fields["_array"] = ex.st.alloc(HArr((r2, c2), sym_dtype(ex, "b_dtype", FLOATS), lambda ix: VFloat(fb(z_int(ix[0]), z_int(ix[1])))))
+                    else:
+                        cb = mk_xr(ex, "cube_b")
+                        i = cb.info           # a cube that b's own setter accepted (rep of b's detector shape)
+                        ex.st.assume(z3.And(zb(arrays.dtype_in(None, i["dtype"], FLOATS)), i["ndim"] == 3, i["dims"][0] == "wavelength", i["dims"][1] == "y", i["dims"][2] == "x",
+                                            i["size_y"] == r2, i["size_x"] == c2))
+                        ex.st.cell(b).fields["_array"] = cb
+                    return [a, b], {}
+                ps = u.paths(fi, setup, cfg, label=f"Photon.__eq__[{pre_a},{pre_b},{same_shape}]")
+                name = f"photon_eq.spec[{pre_a},{pre_b},{'same' if same_shape else 'other'}-shape]"
+                rp = replay(pre_a, pre_b, same_shape)
+                for p in ps:
+                    if p.kind == "raise":
+                        u.oblige(p, name + ".total", False, {"exc": p.exc_name()}, rp)
+                        continue
+                    t = p.ex.truth(p.value)
+                    if not same_shape or pre_a != pre_b:
+                        u.oblige(p, name, zb(z_not(t)), {}, rp)
+                    elif pre_a == "empty":
+                        u.oblige(p, name, zb(t), {}, rp)
+                    elif pre_a == "full":
+                        u.oblige(p, name, isinstance(p.value, VBool) and not isinstance(p.value.v, bool) and "array_equal" in str(p.value.v), {}, rp)
+                    else:
+                        u.oblige(p, name, zb(t) == z3.Bool("cubes_equal"), {}, rp)
+                u.cover(f"cover[photon_eq:{pre_a},{pre_b},{same_shape}]", ps, lambda p: True)
